@@ -65,15 +65,15 @@ def mon_limit_change(case_line, trace):
     if 'panic' in trace:
         return 'panic-after-set_config: lowering the inbound limits in mid-message made a call panic: %s' % trace[:80]
     case = ws.SCase(case_line); ots = ws.parse_trace(trace)
-    cur = case.mms; fresh = False     # fresh: no fragment of the current message arrived before the change
+    cur = case.mms
     for op, ot in zip(case.ops, ots):
         if op.startswith('sl:'):
-            p = op.split(':'); cur = None if p[1] == 'none' else int(p[1]); fresh = False
+            p = op.split(':'); cur = None if p[1] == 'none' else int(p[1])
             continue
         if op == 'r' and (ot.res.startswith('ok:T:') or ot.res.startswith('ok:B:')):
-            if fresh and cur is not None and len(ws.unhx(ot.res[5:])) > cur:
-                return 'limit-ignored-after-set_config: delivered %d bytes with max_message_size %d set before the message began' % (len(ws.unhx(ot.res[5:])), cur)
-            fresh = True
+            # the size test runs on every fragment with the limit then in force: a message completed after the change obeys it
+            if cur is not None and len(ws.unhx(ot.res[5:])) > cur:
+                return 'limit-ignored-after-set_config: delivered %d bytes with max_message_size %d in force when the message was completed' % (len(ws.unhx(ot.res[5:])), cur)
     return None
 
 class StreamProp(E2Prop):
